@@ -290,6 +290,35 @@ static int names_plain (const RefLP * M, int mps)
 	for (int r = 0; r < M->m; r++) if (!name_ok (M->rname[r])) return 0;
 	return 1;
 }
+/* used by family hist: the file an edited problem was just written to must read back as the model (C08 for LP, C09 for MPS).
+ * returns 0 equal / not applicable, 1 differs or rejected (why filled) */
+int io_roundtrip_check (mpq_QSprob p, const RefLP * M, const char *fname, const char *fmt, char *why, size_t wl)
+{
+	(void) p;
+	why[0] = 0;
+	if (!precondition (M)) { STAT ("roundtrip_precondition_fails"); return 0; }
+	if (!strcmp (fmt, "MPS")) {
+		/* known finding KF-C09-mps-name-with-blank: the MPS writer prints names verbatim */
+		for (int c = 0; c < M->n; c++) if (M->cname[c] && strchr (M->cname[c], ' ')) return 0;
+		for (int r = 0; r < M->m; r++) if (M->rname[r] && strchr (M->rname[r], ' ')) return 0;
+	}
+	mpq_QSprob q = mpq_QSread_prob (fname, fmt);
+	STAT ("roundtrips_in_histories");
+	if (!q) { snprintf (why, wl, "the reader rejects the %s text the writer produced for the edited problem", fmt); return 1; }
+	char w2[400];
+	RefLP *R = qsx_readback (q, w2, sizeof w2);
+	int rv = 0;
+	if (!R) { snprintf (why, wl, "cannot read the re-read problem back: %s", w2); rv = 1; }
+	else {
+		CmpOpt o = { !strcmp (fmt, "LP"), 1, 0 };
+		o.names_exact = names_plain (M, 0);
+		int c = cmp_problem (R, M, &o, w2, sizeof w2);
+		if (c == 1) { snprintf (why, wl, "%s text of the edited problem reads back differently: %s", fmt, w2); rv = 1; }
+		ref_free (R);
+	}
+	mpq_QSfree_prob (q);
+	return rv;
+}
 static int names_plain_old (const RefLP * M, int mps)
 {
 	for (int c = 0; c < M->n; c++) { const char *s = M->cname[c]; if (!s) return 0; if (!isalpha ((unsigned char) s[0])) return 0; for (const char *q = s; *q; q++) if (!isalnum ((unsigned char) *q) && *q != '_') return 0; }
